@@ -391,9 +391,9 @@ func runC08(c *Ctx) {
 	}
 	rnd := rt.NewRand(c.Seed, "c08")
 	// valid scripts
-	keySizes := []int{1024}
+	keySizes := []int{1024, 1025, 1031}
 	if !quick {
-		keySizes = []int{1024, 1536, 2048}
+		keySizes = []int{1024, 1025, 1031, 1500, 1536, 2047, 2048}
 	}
 	idx := 0
 	for _, extras := range []bool{false, true} {
@@ -412,10 +412,14 @@ func runC08(c *Ctx) {
 						nonces = append(nonces, n)
 					}
 				}
+				// RSA-OAEP/SHA-1 capacity: nonce + 32 byte session key must
+				// fit the modulus, whose size in bytes is rounded UP for key
+				// lengths that are not a multiple of 8 bits
+				capacity := (bits+7)/8 - 42 - 32
+				nonces = append(nonces, capacity, capacity-1)
 				for _, nl := range nonces {
-					// RSA-OAEP/SHA-1 capacity: nonce + 32 byte session key must fit the key
-					if nl+32 > bits/8-42 {
-						nl = bits/8 - 42 - 32
+					if nl > capacity {
+						nl = capacity
 					}
 					for rem := 0; rem <= 2; rem += 2 {
 						ps := 0
